@@ -18,8 +18,8 @@ from .. import contracts, gen, geom
 
 PROPERTY = "C17"
 RULE = ("(a,c) on a grid of each family's rectangle (quick 11x11, thorough 41x41) incl. edges and corners + random interior points; "
-        "all truncations on a grid of [0,1]; out-of-domain values (1e-9 outside, +-1, nan); n = 3..48 (+ 97, 200) quick, 3..200 "
-        "thorough for n-gons, prisms, antiprisms; n = 3..5 for pyramids and dipyramids.  Non-trivial = parameter strictly inside "
+        "all truncations on a grid of [0,1]; out-of-domain values (1e-9 outside, +-1, nan); n = 3..200 (every "
+        "admissible n, in both tiers) for n-gons, prisms, antiprisms; n = 3..5 for pyramids and dipyramids.  Non-trivial = parameter strictly inside "
         "the domain or on an edge (corners are the documented solids), any n; distinct = (family, parameters).")
 ASSUMPTIONS = ["'well-separated' = minimum distance between distinct exact vertices > 1e-4 (harness's own enumeration)",
                "errors are only a violation where the exact vertices are well separated; ValueError is the only allowed error"]
@@ -61,7 +61,7 @@ def plan(tier):
         out.append(("ttet", "TruncatedTetrahedronFamily", k / (nt - 1), None))
     for k in range(6):
         out.append(("ood-ttet", "TruncatedTetrahedronFamily", k, None))
-    ns = list(range(3, 49)) + [97, 200] if tier == "quick" else list(range(3, 201))
+    ns = list(range(3, 201))      # finite and cheap: every admissible n in both tiers
     for n in ns:
         for fam in ("RegularNGonFamily", "UniformPrismFamily", "UniformAntiprismFamily"):
             out.append(("n", fam, n, None))
